@@ -54,12 +54,16 @@ def run_case(c):
         rnd = random.Random(i["seed"])
         members = list(Days)
         n = 0
-        base_day = 20000
+        # calendar days: a plain week, and the days around a month end, a year end and the end of February (leap and not)
+        epoch = datetime.date(1970, 1, 1)
+        days = [20000 + k for k in range(7)]
+        for y, m, d in ((2024, 10, 31), (2024, 12, 31), (2025, 2, 28), (2028, 2, 29), (2026, 4, 30)):
+            c = (datetime.date(y, m, d) - epoch).days
+            days += [c - 1, c, c + 1]
         for off in i["zones"]:
-            for wd in range(7):
-                for _ in range(i["minutes"]):
+            for uday in days:
+                for _ in range(max(1, i["minutes"] // 2)):
                     usod = rnd.choice([0, 60 * rnd.randrange(1440), 86399, 43200])
-                    uday = base_day + wd
                     local_min = ((usod + off) // 60) % 1440
                     for size in range(0, 8):
                         for combo in itertools.combinations(members, size):
